@@ -395,7 +395,7 @@ def run(ctx):
     stats_corpus = dict(stats)
 
     # ---- 2. seeded histories, in parallel ---------------------------------------------------------
-    n_hist = 1100 if quick else 30000
+    n_hist = int(os.environ.get("VERIF_C06_HISTS", "0")) or (1100 if quick else 30000)
     nproc = 12
     per = (n_hist + nproc - 1) // nproc
     maxdim = 4
